@@ -19,6 +19,14 @@ def main():
     mod = importlib.import_module(f"harness.props.{prop.lower()}")
     if a.replay:
         a.replay = os.path.abspath(a.replay)     # cwd changes below
+    # one run per property at a time: a check rebuilds its Coq targets and (C11, C13, C19, C20)
+    # regenerates coq/theories/Gen/* from the repository under test, so two concurrent runs of the
+    # same property (e.g. against two different worktrees) must not interleave
+    import fcntl
+    lock_dir = core.VERIF / ".scratch"
+    lock_dir.mkdir(exist_ok=True)
+    lock = open(lock_dir / f"lock_{prop}", "w")
+    fcntl.flock(lock, fcntl.LOCK_EX)
     run = core.Run(prop, a.tier, seed)
     scratch = core.scratch_dir("sv_cwd_")
     os.chdir(scratch)          # repo code writes into cwd by default; never dirty /repo or /verif
